@@ -1,4 +1,4 @@
-\* quick tier: 2 faults on the most concurrent shape (batch 2, 2 fetchers, 2 submitters), honest source
+\* quick tier: growing source (3+1), batch 2, fetchers/submitters 1..2, all modes, honest/forked x 1 fault
 CONSTANTS
   MaxIdx = 4
   FaultKinds = {"short", "fetchErr", "quota", "fatal", "rootErr", "sthErr", "consErr", "cancel", "revoke"}
@@ -6,13 +6,13 @@ CONSTANTS
   SrcSizes = {3}
   Growths = {1}
   Batches = {2}
-  FetcherCounts = {2}
-  SubmitterCounts = {2}
+  FetcherCounts = {1, 2}
+  SubmitterCounts = {1, 2}
   Modes = {"run", "master"}
   Conts = {TRUE, FALSE}
-  Forks = {FALSE}
-  MaxFaults = 2
-  FaultBudgets = {2}
+  Forks = {TRUE, FALSE}
+  MaxFaults = 1
+  FaultBudgets = {1}
   MaxRestarts = 1
 INIT MCInit
 NEXT Next
